@@ -334,6 +334,45 @@ def in_slack(c, bounds, sl):
     return any(bounds[i + 1] - sl[i] <= c <= bounds[i + 1] - 2 for i in range(len(sl)))
 
 
+def py_lmp_stages_s(lens, sl, cuts):
+    """Python twin of the Lean specification lmpStagesS (Model/ReadersSlack.lean) — used by replay() only, where no
+    driver is at hand; in run() the specification comes from the compiled Lean driver (op lspecs)"""
+    ends = [0]
+    for n in lens:
+        ends.append(ends[-1] + n)
+    done = miss = 0
+    out = []
+    for c in cuts:
+        c = max(c, 0)
+        if miss:
+            if c >= ends[done]:
+                miss = 0
+            out.append([])
+            continue
+        got = []
+        while done < len(lens) and ends[done + 1] <= c:
+            got.append(done)
+            done += 1
+        if done < len(lens) and ends[done + 1] <= c + sl[done]:
+            miss = ends[done + 1] - c
+            got.append(done)
+            done += 1
+        out.append(got)
+    return out
+
+
+def pred_lmp_spec(stages, cuts, frames, bounds, sl):
+    """the frames returned poll by poll are those of lmpStagesS (replay twin of the run-time spec comparison)"""
+    exp = [(fl_rows(c), fl_rows(b)) for c, b in frames]
+    lens = [bounds[i + 1] - bounds[i] for i in range(len(frames))]
+    want = [[exp[i] for i in idxs] for idxs in py_lmp_stages_s(lens, sl, cuts)]
+    got = [st if isinstance(st, str) else st[1] for st in stages]
+    if got != want:
+        k = next((j for j, (g, w) in enumerate(zip(got, want)) if g != w), min(len(got), len(want)))
+        return "C13:lammps:stages-not-as-specified", f"poll {k} does not return what lmpStagesS specifies", k
+    return None
+
+
 def pred_lmp(stages, cuts, frames, bounds, slack=1):
     """slack: bytes of a frame that may still be missing when it is returned — its final newline (1), or the blank
     and the newline behind the trailing id when the atom lines end in "id \n" (2): never a byte of a value"""
@@ -1060,7 +1099,8 @@ def replay_corpus(ctx, ep, rf):
         frames = r["frames"] if kind == "xyz" else [tuple(x) for x in r["frames"]]
         stages = rf.polls(ep, fn, r["text"].encode(), r["cuts"], conv)
         bad = (pred_xyz(stages, r["cuts"], frames, r["bounds"]) if kind == "xyz"
-               else pred_lmp(stages, r["cuts"], frames, r["bounds"], r.get("slack", 1)))
+               else pred_lmp(stages, r["cuts"], frames, r["bounds"],
+                             r.get("slack") or lmp_slacks(r["text"], r["bounds"])))
         ctx.count(1, branch="corpus")
         ctx.distinct(("corpus", f.name))
         if bad is not None:
@@ -1272,8 +1312,13 @@ def replay(ctx, obj):
             conv = conv_xyz if kind == "xyz" else conv_lmp
             stages = rf.polls(ep, fn, r["text"].encode(), r["cuts"], conv)
             frames = r["frames"] if kind == "xyz" else [tuple(f) for f in r["frames"]]
-            bad = (pred_xyz(stages, r["cuts"], frames, r["bounds"]) if kind == "xyz"
-                   else pred_lmp(stages, r["cuts"], frames, r["bounds"], r.get("slack", 1)))
+            if kind == "xyz":
+                bad = pred_xyz(stages, r["cuts"], frames, r["bounds"])
+            else:   # per-frame slack: recorded, or read off the text (white space behind each frame's last id)
+                sl = r.get("slack") or lmp_slacks(r["text"], r["bounds"])
+                bad = (pred_lmp(stages, r["cuts"], frames, r["bounds"], sl)
+                       or pred_lmp_spec(stages, r["cuts"], frames, r["bounds"],
+                                        sl if isinstance(sl, list) else [sl] * len(frames)))
             for k, s in enumerate(stages):
                 print(f"poll {k} visible={r['cuts'][k]}:", show_code_stage(s, kind))
             print("predicate:", bad)
